@@ -122,10 +122,10 @@ type xStorage struct{}
 func (xStorage) Variables() map[string]any { return map[string]any{"k": "srcval"} }
 
 func HarnessC15ScenarioShot() {
-	nSteps := int(vConcretize(vNondetInt("steps", 1, 3)))
+	nSteps := int(vConcretize(vNondetInt("steps", 1, vHi(3, 5))))
 	failStep := int(vConcretize(vNondetInt("failStep", -1, int64(nSteps)-1))) // -1: none fails
 	failKind := vConcretize(vNondetInt("failKind", 0, 4))                     // 0 transport 1 template 2 assertion 3 preprocessor 4 body read error
-	names := []string{"s0", "s1", "s2"}
+	names := []string{"s0", "s1", "s2", "s3", "s4"}
 	cl := &xClient{failAt: -1, bodyErrAt: -1, status: int(vNondetInt("status", 200, 599))}
 	cl.body = vNondetString("body", int(vConcretize(vNondetInt("bodylen", 0, 2)))) // the target may answer with an empty body
 	tp := &xTemplater{seen: map[string]map[string]any{}}
